@@ -5,7 +5,7 @@ V = os.path.dirname(os.path.dirname(os.path.abspath(__file__)))
 rows = []
 for f in sorted(glob.glob(os.path.join(V, "seeded", "*", "meta.json"))):
     m = json.load(open(f))
-    pid = m["property"]
+    pid = os.path.basename(os.path.dirname(f))
     notes = ""
     nf = os.path.join(os.path.dirname(f), "notes.md")
     what = m.get("summary") or json.load(open(os.path.join(V, "seeded", "summaries.json"))).get(pid, "")
